@@ -288,7 +288,10 @@ def d4(chk):
             if isinstance(n, ast.Assign) and unparse(n.targets[0]) in ("self.sma", "self.frame") and "del self._n" not in unparse(fobj.node):
                 writers.append(fobj.ref)
     chk.inst("D4", "beyond/propagators/cw.py::ClohessyWiltshire::_n-sources", not writers, "sma and frame are written only by the constructor" if not writers else f"{writers} write a source of the cached mean motion without dropping it", "beyond/propagators/cw.py")
-    chk.floor("D4", 8)
+    from ..ownership import fresh_infos, memo_census
+    fresh_infos(chk, "D4")
+    memo_census(chk, "D4")
+    chk.floor("D4", 8 + 12)
 
 
 def d8(chk):
@@ -317,5 +320,9 @@ def run(chk):
     chk.guard(d3, chk)
     chk.guard(d4, chk)
     chk.guard(d8, chk)
+    # R08.5 = R10.1: listeners cleared when the iteration starts (re-use of listener objects must not leak history)
+    from .c10 import r10_1
+    chk.rule("R10.1", "(= R08.5) listeners cleared before the first listen of every iteration, inside the generator that listens")
+    chk.guard(r10_1, chk)
     chk.assume("StateVector.copy is a per-item copy (R15.1, C15); numpy arithmetic/slicing shallow-copies _data (__array_finalize__)")
     chk.assume("listeners are cleared at the start of each iteration: decided under C10 (R10.1)")
